@@ -1,12 +1,29 @@
 ----------------------------- MODULE Clockwork -----------------------------
-(* schedulers/clockwork_scheduler.py (ClockworkScheduler.schedule with        *)
-(* run_load off) as a state machine over successive invocations.              *)
+(* schedulers/clockwork_scheduler.py (ClockworkScheduler.schedule, with or     *)
+(* without --scheduler_run_load) as a state machine over successive           *)
+(* invocations.                                                               *)
 (*                                                                            *)
 (*   Arrive(r, d)  request r is released with deadline d                      *)
 (*   Tick(d)       time advances; batches whose runtime has elapsed leave      *)
-(*                 their worker                                                *)
-(*   Invoke        one schedule() call: admission ; per worker (expiry of all *)
-(*                 queues ; model loop) ; the caller applies the answer       *)
+(*                 their worker, pending models whose load time has elapsed    *)
+(*                 become available (Worker.step)                              *)
+(*   Invoke        one schedule() call: admission ; (RunLoad: run_load, per    *)
+(*                 worker: LOAD / EVICT decisions on the virtual workers) ;    *)
+(*                 per worker (expiry of all queues ; model loop) ; the caller *)
+(*                 applies the answer in the simulator's event order           *)
+(*                 (cancel, evict, load, place)                                *)
+(*                                                                            *)
+(* Model loading.  A worker has `mem` units of model memory; model m takes     *)
+(* LoadOf[m].mem of it from the LOAD until the EVICT and becomes available     *)
+(* LoadOf[m].lt after the LOAD.  run_load orders the models by a priority that *)
+(* is floating-point arithmetic over demand counters (Models.refresh_priorities*)
+(* / get_model_priority): the machine leaves that order free (any permutation  *)
+(* of the known models per worker, `pr`) and transcribes what is done with it  *)
+(* (skip workers with pending loads, first absent model in priority order that *)
+(* fits is loaded, otherwise loaded models are evicted from the low-priority   *)
+(* end until it fits or the model itself is reached; evictions of a failed     *)
+(* attempt stay; the LOAD itself is not applied to the virtual worker), so the *)
+(* invariants hold for every priority function.                                *)
 (*                                                                            *)
 (* The order of everything that the implementation fixes is transcribed       *)
 (* (insertion order of models, insort_right, (slack, -batch) strategy order,  *)
@@ -19,7 +36,9 @@ EXTENDS Integers, Sequences, FiniteSets, TLC
 
 CONSTANTS Strats,     \* model -> sequence (profile order) of [b, rt, dem]
           Reqs,       \* sequence of [m |-> model, dls |-> set of deadlines, arr |-> earliest arrival]
-          Workers,    \* sequence (pool order) of [cap |-> Nat, loaded |-> set of models]
+          Workers,    \* sequence (pool order) of [cap |-> Nat, mem |-> Nat, loaded |-> set of models]
+          RunLoad,    \* BOOLEAN: --scheduler_run_load
+          LoadOf,     \* model -> [mem |-> memory of its loading strategy, lt |-> load time]
           Goal,       \* "clockwork" | "least_slack"
           InitOrder,  \* models registered by start(), in that order
           MaxT,       \* last instant
@@ -33,9 +52,11 @@ VARIABLES now,        \* current time
           nplaced,    \* request -> number of times it was placed (whole behaviour)
           cancelled,  \* requests cancelled so far
           running,    \* worker -> set of batches currently on the live worker
+          avail,      \* worker -> set of models available (loaded) on the live worker
+          pend,       \* worker -> model -> remaining load time (0 = not pending)
           out,        \* the answer of the last invocation (NoOut after other actions)
           obs         \* what the live workers' getters must show
-vars == <<now, arrived, dl, morder, queue, nplaced, cancelled, running, out, obs>>
+vars == <<now, arrived, dl, morder, queue, nplaced, cancelled, running, avail, pend, out, obs>>
 
 ModelSet == DOMAIN Strats
 R == DOMAIN Reqs
@@ -56,17 +77,33 @@ ASSUME /\ \A m \in ModelSet : /\ Len(Strats[m]) >= 1
                               /\ \A j, k \in DOMAIN Strats[m] : j # k => Strats[m][j].b # Strats[m][k].b
        /\ \A r \in R : Reqs[r].m \in ModelSet
        /\ \A w \in W : Workers[w].loaded \subseteq ModelSet
+       /\ RunLoad \in BOOLEAN
+       /\ DOMAIN LoadOf = ModelSet
+       /\ \A m \in ModelSet : LoadOf[m].mem >= 0 /\ LoadOf[m].lt >= 0
+       \* with run_load: loading takes time, every model fits into an empty worker (run_load picks the
+       \* loading strategy on an emptied copy of the worker), and the initial state is within memory
+       /\ RunLoad => \A m \in ModelSet : LoadOf[m].lt >= 1 /\ \A w \in W : LoadOf[m].mem <= Workers[w].mem
        /\ Goal \in {"clockwork", "least_slack"}
        /\ ToSet(InitOrder) \subseteq ModelSet /\ Cardinality(ToSet(InitOrder)) = Len(InitOrder)
 
 ----------------------------------------------------------------------------
 (* The property, on call records.                                            *)
-(*   wd = [strats |-> model -> seq of [b, rt, dem], reqs |-> seq of [m, dl]]  *)
+(*   wd = [strats |-> model -> seq of [b, rt, dem], reqs |-> seq of [m, dl],  *)
+(*         load |-> model -> [mem, lt]]                                        *)
 (*   c  = [now, offered, cancelled (sets of requests),                        *)
 (*         batches |-> seq of [m, b, rt, dem, w, reqs (seq)],                  *)
 (*         free |-> per worker capacity left before the call,                  *)
-(*         loaded |-> per worker set of models, failed |-> requests the live   *)
-(*         worker refused]                                                     *)
+(*         loaded |-> per worker set of models available before the call,      *)
+(*         failed |-> requests the live worker refused,                        *)
+(*         evicts |-> seq of [m, w], loads |-> seq of [m, w, mem, lt]: the     *)
+(*         EVICT / LOAD decisions of the same answer (w = 0: unknown worker),  *)
+(*         pending |-> per worker set of models still loading before the call, *)
+(*         fmem |-> per worker model memory left before the call,              *)
+(*         lfailed |-> indices of loads (i) / evictions (-i) the live worker   *)
+(*         refused]                                                            *)
+(* The simulator applies the decisions of one answer at the same instant in    *)
+(* the order evict, load, place (EventType priorities), so a batch meets the   *)
+(* worker after the evictions of its own answer.                               *)
 
 FastestRt(wd, m) == Min({wd.strats[m][k].rt : k \in DOMAIN wd.strats[m]})
 
@@ -82,7 +119,36 @@ ClFullBatch(wd, c, B) ==
 
 ClSameModel(wd, c, B) == \A i \in DOMAIN B.reqs : wd.reqs[B.reqs[i]].m = B.m
 
-ClLoaded(wd, c, B) == B.w \in DOMAIN c.loaded /\ B.m \in c.loaded[B.w]
+\* models the answer itself evicts from worker w
+EvictedAt(c, w) == {c.evicts[i].m : i \in {i \in DOMAIN c.evicts : c.evicts[i].w = w}}
+
+\* the model is available on the worker (not merely pending) and still is once the evictions of the
+\* same answer have taken effect
+ClLoaded(wd, c, B) == B.w \in DOMAIN c.loaded /\ B.m \in c.loaded[B.w] \ EvictedAt(c, B.w)
+
+\* run_load's part of "a worker where that model is loaded": a LOAD / EVICT names an existing worker and a
+\* model of the world; an eviction names a model that is on that worker (once per answer); a load uses
+\* the model's loading strategy
+ClEvictTarget(wd, c, i) ==
+    LET e == c.evicts[i] IN
+    /\ e.w \in DOMAIN c.loaded /\ e.m \in DOMAIN wd.strats
+    /\ e.m \in c.loaded[e.w] \cup c.pending[e.w]
+    /\ \A j \in 1..(i - 1) : c.evicts[j] # e
+ClLoadTarget(wd, c, i) ==
+    LET l == c.loads[i] IN
+    /\ l.w \in DOMAIN c.loaded /\ l.m \in DOMAIN wd.strats
+    /\ l.mem = wd.load[l.m].mem /\ l.lt = wd.load[l.m].lt
+
+\* the loads of the answer fit into the model memory left on the worker after the evictions of the same
+\* answer, and the live worker took them
+ClLoadFits(wd, c, w) ==
+    LET freed == {m \in EvictedAt(c, w) : m \in DOMAIN wd.load /\ m \in c.loaded[w] \cup c.pending[w]}
+        gain == SumSeq([i \in DOMAIN c.evicts |->
+                          IF /\ c.evicts[i].w = w /\ c.evicts[i].m \in freed
+                             /\ \A j \in 1..(i - 1) : c.evicts[j] # c.evicts[i]
+                          THEN wd.load[c.evicts[i].m].mem ELSE 0])
+    IN /\ SumSeq([i \in DOMAIN c.loads |-> IF c.loads[i].w = w THEN c.loads[i].mem ELSE 0]) <= c.fmem[w] + gain
+       /\ \A i \in DOMAIN c.loads : c.loads[i].w = w => i \notin c.lfailed
 
 \* what the call puts on worker w fits into what was free on it, and the live worker took it
 ClFits(wd, c, w) ==
@@ -108,6 +174,9 @@ CallBad(wd, c) ==
     \cup {<<"C15.placed_once", i>> : i \in {i \in BI : ~ClOffered(wd, c, c.batches[i])}}
     \cup {<<"C15.fits", w>>        : w \in {w \in DOMAIN c.free : ~ClFits(wd, c, w)}}
     \cup {<<"C15.late_cancelled", r>> : r \in {r \in c.offered : ~ClLate(wd, c, r)}}
+    \cup {<<"C15.load_target", -i>> : i \in {i \in DOMAIN c.evicts : ~ClEvictTarget(wd, c, i) \/ (-i) \in c.lfailed}}
+    \cup {<<"C15.load_target", i>>  : i \in {i \in DOMAIN c.loads : ~ClLoadTarget(wd, c, i)}}
+    \cup {<<"C15.load_fits", w>>    : w \in {w \in DOMAIN c.fmem : ~ClLoadFits(wd, c, w)}}
 
 \* number of times request r is placed by a sequence of calls
 TimesPlaced(calls, r) ==
@@ -118,26 +187,41 @@ TimesPlaced(calls, r) ==
 ----------------------------------------------------------------------------
 (* The state machine.                                                         *)
 
-NoOut == [at |-> -1, offered |-> {}, cancelled |-> {}, batches |-> <<>>, free |-> <<>>]
+NoOut == [at |-> -1, offered |-> {}, cancelled |-> {}, batches |-> <<>>, free |-> <<>>,
+          evicts |-> <<>>, loads |-> <<>>, loaded |-> <<>>, pending |-> <<>>, fmem |-> <<>>]
 DL(r) == dl[r]
 MOf(r) == Reqs[r].m
 St(m, k) == Strats[m][k]
-World == [strats |-> Strats, reqs |-> [r \in R |-> [m |-> Reqs[r].m, dl |-> dl[r]]]]
+World == [strats |-> Strats, reqs |-> [r \in R |-> [m |-> Reqs[r].m, dl |-> dl[r]]], load |-> LoadOf]
 Fastest(m) == FastestRt(World, m)
 Used(bs) == LET RECURSIVE U(_)
                 U(S) == IF S = {} THEN 0 ELSE LET B == CHOOSE B \in S : TRUE IN B.dem + U(S \ {B})
             IN U(bs)
 
-Observe(run) == [free |-> [w \in W |-> Workers[w].cap - Used(run[w])],
-                 on   |-> [w \in W |-> UNION {B.reqs : B \in run[w]}]]
+Mem(m) == LoadOf[m].mem
+MemOf(S) == LET RECURSIVE U(_)
+                U(T) == IF T = {} THEN 0 ELSE LET m == CHOOSE m \in T : TRUE IN Mem(m) + U(T \ {m})
+            IN U(S)
+Pending(pd, w) == {m \in ModelSet : pd[w][m] > 0}
+\* model memory left on the live worker: available and pending models hold theirs
+FreeMem(av, pd, w) == Workers[w].mem - MemOf(av[w] \cup Pending(pd, w))
+
+Observe(run, av, pd) ==
+    [free    |-> [w \in W |-> Workers[w].cap - Used(run[w])],
+     on      |-> [w \in W |-> UNION {B.reqs : B \in run[w]}],
+     loaded  |-> av,
+     pending |-> [w \in W |-> {<<m, pd[w][m]>> : m \in Pending(pd, w)}],
+     fmem    |-> [w \in W |-> FreeMem(av, pd, w)]]
 
 Init == /\ now = 0 /\ arrived = {} /\ dl = [r \in R |-> 0]
         /\ morder = InitOrder
         /\ queue = [m \in ModelSet |-> [k \in DOMAIN Strats[m] |-> <<>>]]
         /\ nplaced = [r \in R |-> 0] /\ cancelled = {}
         /\ running = [w \in W |-> {}]
+        /\ avail = [w \in W |-> Workers[w].loaded]
+        /\ pend = [w \in W |-> [m \in ModelSet |-> 0]]
         /\ out = NoOut
-        /\ obs = Observe(running)
+        /\ obs = Observe(running, avail, pend)
 
 \* Task.release(now) of a request whose deadline is d
 Arrive(r, d) ==
@@ -145,15 +229,18 @@ Arrive(r, d) ==
     /\ arrived' = arrived \cup {r}
     /\ dl' = [dl EXCEPT ![r] = d]
     /\ out' = NoOut
-    /\ UNCHANGED <<now, morder, queue, nplaced, cancelled, running, obs>>
+    /\ UNCHANGED <<now, morder, queue, nplaced, cancelled, running, avail, pend, obs>>
 
-\* the simulator steps the workers: a batch started at t with runtime rt is gone at t + rt
+\* the simulator steps the workers: a batch started at t with runtime rt is gone at t + rt, a model
+\* whose remaining load time is used up moves from pending to available (Worker.step)
 Tick(d) ==
     /\ now + d <= MaxT
     /\ now' = now + d
     /\ running' = [w \in W |-> {B \in running[w] : B.fin > now + d}]
+    /\ avail' = [w \in W |-> avail[w] \cup {m \in Pending(pend, w) : pend[w][m] <= d}]
+    /\ pend' = [w \in W |-> [m \in ModelSet |-> IF pend[w][m] > d THEN pend[w][m] - d ELSE 0]]
     /\ out' = NoOut
-    /\ obs' = Observe(running')
+    /\ obs' = Observe(running', avail', pend')
     /\ UNCHANGED <<arrived, dl, morder, queue, nplaced, cancelled>>
 
 \* ---- Model ----------------------------------------------------------------
@@ -210,14 +297,55 @@ AdmitOne(A, r, t) ==
 RECURSIVE Admit(_, _, _)
 Admit(A, r, t) == IF r > Len(Reqs) THEN A ELSE Admit(AdmitOne(A, r, t), r + 1, t)
 
+\* ---- run_load ---------------------------------------------------------------
+\* V = [ld |-> per worker models available on the virtual worker, fm |-> per worker free model memory
+\*      of the virtual worker, ev |-> evictions, lo |-> loads emitted so far]
+\* P = the models of Models._models in the priority order of this worker, highest first
+LoadRec(m, w) == [m |-> m, w |-> w, mem |-> Mem(m), lt |-> LoadOf[m].lt]
+
+\* evict loaded models from the low-priority end (index j downwards) until m fits or m itself is reached
+RECURSIVE EvictFor(_, _, _, _, _)
+EvictFor(V, w, P, m, j) ==
+    IF j < 1 \/ P[j] = m THEN [v |-> V, ok |-> FALSE]
+    ELSE IF P[j] \in V.ld[w]
+         THEN LET V1 == [V EXCEPT !.ld[w] = @ \ {P[j]}, !.fm[w] = @ + Mem(P[j]),
+                                  !.ev = Append(@, [m |-> P[j], w |-> w])]
+              IN IF Mem(m) <= V1.fm[w]
+                 THEN [v |-> [V1 EXCEPT !.lo = Append(@, LoadRec(m, w))], ok |-> TRUE]
+                 ELSE EvictFor(V1, w, P, m, j - 1)
+         ELSE EvictFor(V, w, P, m, j - 1)
+
+\* the first model in priority order that is absent and can be made to fit is loaded (one LOAD per
+\* worker and call; the LOAD is not applied to the virtual worker)
+RECURSIVE TryLoad(_, _, _, _)
+TryLoad(V, w, P, i) ==
+    IF i > Len(P) THEN V
+    ELSE LET m == P[i] IN
+         IF m \in V.ld[w] THEN TryLoad(V, w, P, i + 1)
+         ELSE IF Mem(m) <= V.fm[w] THEN [V EXCEPT !.lo = Append(@, LoadRec(m, w))]
+         ELSE LET e == EvictFor(V, w, P, m, Len(P))
+              IN IF e.ok THEN e.v ELSE TryLoad(e.v, w, P, i + 1)
+
+RECURSIVE LoadAll(_, _, _, _)
+LoadAll(V, w, mo, pr) ==
+    IF w > Len(Workers) THEN V
+    ELSE LET Known(m) == m \in ToSet(mo)
+             V1 == IF Pending(pend, w) # {} THEN V ELSE TryLoad(V, w, SelectSeq(pr[w], Known), 1)
+         IN LoadAll(V1, w + 1, mo, pr)
+
+\* the priority orders run_load may see: per worker a permutation of the models
+Perms(S) == {p \in [1..Cardinality(S) -> S] : \A i, j \in 1..Cardinality(S) : i # j => p[i] # p[j]}
+PrioChoices == IF RunLoad THEN [W -> Perms(ModelSet)] ELSE {<<>>}
+
 \* ---- run_inference ---------------------------------------------------------
-\* S = [q |-> queues, av |-> virtual free capacity per worker, pl |-> batches emitted so far]
+\* S = [q |-> queues, av |-> virtual free capacity per worker, ld |-> per worker models available on
+\*      the virtual worker, pl |-> batches emitted so far]
 RECURSIVE Loop(_, _, _, _)
 Loop(S, L, w, t) ==
     IF L = <<>> THEN S
     ELSE LET m == Head(L)
              rest == Tail(L)
-         IN IF m \notin Workers[w].loaded THEN Loop(S, rest, w, t)
+         IN IF m \notin S.ld[w] THEN Loop(S, rest, w, t)
             ELSE LET Fit(k) == St(m, k).dem <= S.av[w]
                      cs == SelectSeq(AvailStrats(S.q[m], m, t), Fit)
                  IN IF cs = <<>> THEN Loop(S, rest, w, t)
@@ -227,6 +355,7 @@ Loop(S, L, w, t) ==
                              qm2 == ExpireModel(qm1, m, t)
                              S2 == [q  |-> [S.q EXCEPT ![m] = qm2],
                                     av |-> [S.av EXCEPT ![w] = @ - St(m, k).dem],
+                                    ld |-> S.ld,
                                     pl |-> Append(S.pl, [m |-> m, b |-> St(m, k).b, rt |-> St(m, k).rt,
                                                          dem |-> St(m, k).dem, w |-> w, reqs |-> reqs])]
                              L2 == IF AvailStrats(qm2, m, t) = <<>> THEN rest
@@ -245,12 +374,17 @@ RECURSIVE Inference(_, _, _, _)
 Inference(S, w, mo, t) == IF w > Len(Workers) THEN S ELSE Inference(WorkerPass(S, w, mo, t), w + 1, mo, t)
 
 \* ---- schedule() and the caller applying its answer --------------------------
-Answer ==
-    LET A == Admit([q |-> queue, mo |-> morder, canc |-> {}], 1, now)
-        free == [w \in W |-> Workers[w].cap - Used(running[w])]
-        S == Inference([q |-> A.q, av |-> free, pl |-> <<>>], 1, A.mo, now)
-    IN [q |-> S.q, mo |-> A.mo, canc |-> A.canc, pl |-> S.pl, free |-> free]
+Admission == Admit([q |-> queue, mo |-> morder, canc |-> {}], 1, now)
 
+\* the rest of schedule() after admission A, when run_load sees the priority orders pr
+Answer(A, pr) ==
+    LET free == [w \in W |-> Workers[w].cap - Used(running[w])]
+        V0 == [ld |-> avail, fm |-> [w \in W |-> FreeMem(avail, pend, w)], ev |-> <<>>, lo |-> <<>>]
+        V == IF RunLoad THEN LoadAll(V0, 1, A.mo, pr) ELSE V0
+        S == Inference([q |-> A.q, av |-> free, ld |-> V.ld, pl |-> <<>>], 1, A.mo, now)
+    IN [q |-> S.q, mo |-> A.mo, canc |-> A.canc, pl |-> S.pl, free |-> free, ev |-> V.ev, lo |-> V.lo]
+
+\* the caller applies the answer: evictions, then loads, then the batches
 \* (the answer is an operator argument, not a LET: TLC re-evaluates action-level LET
 \* definitions at every use)
 Invoke(a) ==
@@ -260,11 +394,18 @@ Invoke(a) ==
     /\ running' = [w \in W |-> running[w] \cup
                       {[m |-> a.pl[i].m, b |-> a.pl[i].b, dem |-> a.pl[i].dem, fin |-> now + a.pl[i].rt,
                         reqs |-> ToSet(a.pl[i].reqs)] : i \in {i \in DOMAIN a.pl : a.pl[i].w = w}}]
-    /\ out' = [at |-> now, offered |-> Offered, cancelled |-> a.canc, batches |-> a.pl, free |-> a.free]
-    /\ obs' = Observe(running')
+    /\ avail' = [w \in W |-> avail[w] \ {a.ev[i].m : i \in {i \in DOMAIN a.ev : a.ev[i].w = w}}]
+    /\ pend' = [w \in W |-> [m \in ModelSet |->
+                    IF \E i \in DOMAIN a.lo : a.lo[i].w = w /\ a.lo[i].m = m THEN LoadOf[m].lt ELSE pend[w][m]]]
+    /\ out' = [at |-> now, offered |-> Offered, cancelled |-> a.canc, batches |-> a.pl, free |-> a.free,
+               evicts |-> a.ev, loads |-> a.lo, loaded |-> avail,
+               pending |-> [w \in W |-> Pending(pend, w)],
+               fmem |-> [w \in W |-> FreeMem(avail, pend, w)]]
+    /\ obs' = Observe(running', avail', pend')
     /\ UNCHANGED <<now, arrived, dl>>
 
-Schedule == Invoke(Answer)
+InvokeWith(A) == \E pr \in PrioChoices : Invoke(Answer(A, pr))
+Schedule == InvokeWith(Admission)
 
 Next == \/ \E r \in R : \E d \in Reqs[r].dls : Arrive(r, d)
         \/ \E d \in Steps : Tick(d)
@@ -276,14 +417,22 @@ Spec == Init /\ [][Next]_vars
 (* Invariants.                                                               *)
 
 OutCall == [now |-> out.at, offered |-> out.offered, cancelled |-> out.cancelled, batches |-> out.batches,
-            free |-> out.free, loaded |-> [w \in W |-> Workers[w].loaded], failed |-> {}]
+            free |-> out.free, loaded |-> out.loaded, failed |-> {},
+            evicts |-> out.evicts, loads |-> out.loads, pending |-> out.pending, fmem |-> out.fmem, lfailed |-> {}]
 Called == out.at >= 0
 BI == DOMAIN out.batches
 
 C15_FullBatch == Called => \A i \in BI : ClFullBatch(World, OutCall, out.batches[i])
 C15_SameModel == Called => \A i \in BI : ClSameModel(World, OutCall, out.batches[i])
-C15_Loaded    == /\ Called => \A i \in BI : ClLoaded(World, OutCall, out.batches[i])
-                 /\ \A w \in W : \A B \in running[w] : B.m \in Workers[w].loaded
+\* (a batch that is running when a later answer evicts its model was placed where the model was loaded:
+\* the statement speaks of the placement)
+C15_Loaded    == Called => \A i \in BI : ClLoaded(World, OutCall, out.batches[i])
+\* run_load's decisions are well-formed and within the model memory, on the bookkeeping of the call and
+\* on the ground truth of the live workers
+C15_LoadTarget == Called => /\ \A i \in DOMAIN out.evicts : ClEvictTarget(World, OutCall, i)
+                            /\ \A i \in DOMAIN out.loads : ClLoadTarget(World, OutCall, i)
+C15_LoadFits  == /\ Called => \A w \in W : ClLoadFits(World, OutCall, w)
+                 /\ \A w \in W : FreeMem(avail, pend, w) >= 0
 \* against the bookkeeping of the call and against the ground truth of the live workers
 C15_Fits      == /\ Called => \A w \in W : ClFits(World, OutCall, w)
                  /\ \A w \in W : Used(running[w]) <= Workers[w].cap
@@ -299,6 +448,7 @@ QueuesSorted == \A m \in ModelSet : \A k \in DOMAIN queue[m] :
 QueuedAreLive == Called => \A m \in ModelSet : \A k \in DOMAIN queue[m] :
                     ToSet(queue[m][k]) \subseteq {r \in arrived : nplaced[r] = 0 /\ r \notin cancelled /\ MOf(r) = m}
 TypeOK == /\ now \in 0..MaxT /\ arrived \subseteq R /\ cancelled \subseteq arrived
+          /\ \A w \in W : avail[w] \subseteq ModelSet /\ avail[w] \cap Pending(pend, w) = {}
           /\ ToSet(morder) \subseteq ModelSet /\ Cardinality(ToSet(morder)) = Len(morder)
 
 ----------------------------------------------------------------------------
@@ -309,7 +459,10 @@ TypeOK == /\ now \in 0..MaxT /\ arrived \subseteq R /\ cancelled \subseteq arriv
 
 CallOf(j) == [now |-> j.now, offered |-> ToSet(j.offered), cancelled |-> ToSet(j.cancelled),
               batches |-> j.batches, free |-> j.free,
-              loaded |-> [w \in DOMAIN j.loaded |-> ToSet(j.loaded[w])], failed |-> ToSet(j.failed)]
+              loaded |-> [w \in DOMAIN j.loaded |-> ToSet(j.loaded[w])], failed |-> ToSet(j.failed),
+              evicts |-> j.evicts, loads |-> j.loads,
+              pending |-> [w \in DOMAIN j.pending |-> ToSet(j.pending[w])],
+              fmem |-> j.fmem, lfailed |-> ToSet(j.lfailed)]
 
 \* (TimesPlaced and the counters read the raw JSON calls: batches / now / free have the same
 \* shape there; the converted call is built once per call, as an operator argument)
@@ -328,6 +481,26 @@ NTight(wd, c) == Cardinality({i \in DOMAIN c.batches :
 NFullWorker(wd, c) == Cardinality({w \in DOMAIN c.free :
                      c.free[w] - SumSeq([i \in DOMAIN c.batches |-> IF c.batches[i].w = w THEN c.batches[i].dem ELSE 0]) = 0})
 
+\* loading: decisions, and the situations in which "loaded" has to be judged after the evictions
+NEvicts(wd, c) == Len(c.evicts)
+NLoads(wd, c) == Len(c.loads)
+NLoadAfterEvict(wd, c) == Cardinality({i \in DOMAIN c.loads : \E k \in DOMAIN c.evicts : c.evicts[k].w = c.loads[i].w})
+\* an evicted model that had, at that instant, a full on-time batch among the offered requests and room
+\* for it on that worker (the requests wait, are placed elsewhere or after a re-load)
+NVictimQueued(wd, c) ==
+    Cardinality({i \in DOMAIN c.evicts :
+        /\ c.evicts[i].m \in DOMAIN wd.strats /\ c.evicts[i].w \in DOMAIN c.free
+        /\ \E k \in DOMAIN wd.strats[c.evicts[i].m] :
+              LET s == wd.strats[c.evicts[i].m][k] IN
+              /\ s.dem <= c.free[c.evicts[i].w]
+              /\ Cardinality({p \in DOMAIN c.offered : /\ wd.reqs[c.offered[p]].m = c.evicts[i].m
+                                                        /\ c.now + s.rt <= wd.reqs[c.offered[p]].dl}) >= s.b})
+NBatchOnEvictingWorker(wd, c) ==
+    Cardinality({i \in DOMAIN c.batches : \E k \in DOMAIN c.evicts : c.evicts[k].w = c.batches[i].w})
+NBatchBesidePending(wd, c) ==
+    Cardinality({i \in DOMAIN c.batches : c.batches[i].w \in DOMAIN c.pending /\ Len(c.pending[c.batches[i].w]) > 0})
+NMemFull(wd, c) == Cardinality({w \in DOMAIN c.fmem : c.fmem[w] = 0})
+
 RecCheck(H) ==
     /\ \A i \in DOMAIN H :
           \A x \in HistBad(H[i]) : PrintT(<<"@@bad", H[i].id, x[1], x[2], x[3]>>)
@@ -339,6 +512,13 @@ RecCheck(H) ==
     /\ PrintT(<<"@@count", "late_offered", SumSeq([i \in DOMAIN H |-> HistCount(H[i], NLate)])>>)
     /\ PrintT(<<"@@count", "cancelled", SumSeq([i \in DOMAIN H |-> HistCount(H[i], NCancelled)])>>)
     /\ PrintT(<<"@@count", "workers_filled", SumSeq([i \in DOMAIN H |-> HistCount(H[i], NFullWorker)])>>)
+    /\ PrintT(<<"@@count", "evictions", SumSeq([i \in DOMAIN H |-> HistCount(H[i], NEvicts)])>>)
+    /\ PrintT(<<"@@count", "loads", SumSeq([i \in DOMAIN H |-> HistCount(H[i], NLoads)])>>)
+    /\ PrintT(<<"@@count", "loads_after_eviction", SumSeq([i \in DOMAIN H |-> HistCount(H[i], NLoadAfterEvict)])>>)
+    /\ PrintT(<<"@@count", "evicted_with_placeable_batch", SumSeq([i \in DOMAIN H |-> HistCount(H[i], NVictimQueued)])>>)
+    /\ PrintT(<<"@@count", "batches_on_evicting_worker", SumSeq([i \in DOMAIN H |-> HistCount(H[i], NBatchOnEvictingWorker)])>>)
+    /\ PrintT(<<"@@count", "batches_beside_pending_load", SumSeq([i \in DOMAIN H |-> HistCount(H[i], NBatchBesidePending)])>>)
+    /\ PrintT(<<"@@count", "worker_memory_full", SumSeq([i \in DOMAIN H |-> HistCount(H[i], NMemFull)])>>)
 
 \* behaviour used by the record-checking runs (constants are dummies there)
 RecNext == UNCHANGED vars
